@@ -20,6 +20,7 @@ import (
 	"net/http"
 	"net/http/httptest"
 	"net/url"
+	"regexp"
 	"sort"
 	"strings"
 
@@ -45,6 +46,7 @@ type obsT struct {
 	params   [][2]string
 	scope    fox.HandlerScope
 	views    []viewT // Clone() and CloneWith() copies taken inside the handler
+	named    [][2]string
 }
 
 // viewT is what a copy of the context shows
@@ -56,6 +58,15 @@ type viewT struct {
 	pattern  string
 	params   [][2]string
 	scope    fox.HandlerScope
+	named    [][2]string // Param(name) for every parameter name registered on the router
+}
+
+func namedOf(r *rtr, c fox.Context) [][2]string {
+	var out [][2]string
+	for _, n := range r.paramNames {
+		out = append(out, [2]string{n, c.Param(n)})
+	}
+	return out
 }
 
 func viewOf(r *rtr, name string, c fox.Context) viewT {
@@ -70,6 +81,7 @@ func viewOf(r *rtr, name string, c fox.Context) viewT {
 		v.params = append(v.params, [2]string{prm.Key, prm.Value})
 	}
 	v.scope = c.Scope()
+	v.named = namedOf(r, c)
 	return v
 }
 
@@ -87,6 +99,8 @@ type rtr struct {
 	hosts      []string
 	sig        string
 	optsig     []string
+	paramNames []string // every parameter name of every route ever registered on this router
+	family     bool     // hostname route families with competing static / parameter labels
 }
 
 func record(r *rtr, c fox.Context, kind, m, p string) {
@@ -109,6 +123,7 @@ func record(r *rtr, c fox.Context, kind, m, p string) {
 		cur.params = append(cur.params, [2]string{prm.Key, prm.Value})
 	}
 	cur.scope = c.Scope()
+	cur.named = namedOf(r, c)
 	// the views obtained from the context: what a writer-wrapping middleware would pass down
 	cur.views = append(cur.views, viewOf(r, "Clone", c.Clone()))
 	cw := c.CloneWith(c.Writer(), c.Request())
@@ -143,10 +158,10 @@ func (r *rtr) prime(st *hx.Stats, mode int) {
 			host := "a.org"
 			pat := id.pattern
 			if i := strings.IndexByte(pat, '/'); i > 0 {
-				host = strings.NewReplacer("{sub}", "foo").Replace(pat[:i])
+				host = paramNameRe.ReplaceAllString(pat[:i], "foo")
 				pat = pat[i:]
 			}
-			path := strings.NewReplacer("{x}", "users", "{y}", "42", "{z}", "zz", "*{w}", "w/42").Replace(pat)
+			path := paramNameRe.ReplaceAllString(strings.ReplaceAll(pat, "*{w}", "w/42"), "users")
 			if wantTsr {
 				if strings.HasSuffix(path, "/") {
 					path = strings.TrimSuffix(path, "/")
@@ -216,6 +231,18 @@ var patternPool = []string{
 	"/{x}/b", "/{x}/b/", "/{x}/{y}", "/{x}/{y}/", "/*{w}", "/a/*{w}", "/b/*{w}/", "/a/b/{x}/", "/a{x}", "/a{x}/",
 	"/c:d", "/c:d/", "/a/b/c", "/a/b/c/", "/ab/{x}", "/ab/{x}/", "/b/{x}/c/", "/{x}/b/{y}", "/{x}/{y}/{z}/", "/{x}/{y}/{z}",
 }
+var paramNameRe = regexp.MustCompile(`\{([^}]*)\}`)
+
+// hostname route families in which a static label and a parameter label compete after a parameter label
+// (and the other way round), with paths that exist only under one of the alternatives: a lookup follows
+// the static label, fails on the path and backtracks inside the hostname
+var hostFamily = []string{
+	"{a}.b.com/x", "{a}.{c}.com/y", "{a}.b.com/{p}/x", "www.b.com/x", "www.{c}.com/y", "{a}.b.com/x/", "{a}.{c}.com/x/y",
+	"{a}.{c}.com/{p}", "www.b.com/y/", "{a}.b.{d}/z", "{a}.b.com/z", "{a}.{c}.{d}/w", "foo.{c}.com/v", "{a}.z.com/v",
+}
+var familyHosts = []string{"foo.b.com", "foo.z.com", "www.b.com", "www.z.com", "foo.b.org", "bar.b.com", "foo.z.org", "b.com"}
+var familyPaths = []string{"/x", "/y", "/x/", "/y/", "/z", "/w", "/v", "/x/y", "/q", "/q/x", "/"}
+
 var hostPatterns = []string{"ex.com/", "ex.com/a/", "ex.com/{x}", "ex.com/{x}/", "{sub}.ex.com/a", "{sub}.ex.com/a/", "ex.com/a/b"}
 
 var paramValues = []string{
@@ -341,6 +368,15 @@ func (r *rtr) handle(st *hx.Stats, m, p string, rops []tsOpt) error {
 	if i := strings.IndexByte(p, '/'); i > 0 {
 		r.hosts = append(r.hosts, p[:i])
 	}
+	for _, mm := range paramNameRe.FindAllStringSubmatch(p, -1) {
+		known := false
+		for _, n := range r.paramNames {
+			known = known || n == mm[1]
+		}
+		if !known {
+			r.paramNames = append(r.paramNames, mm[1])
+		}
+	}
 	r.optsig = append(r.optsig, fmt.Sprintf("%s %s [%s]", m, p, tsString(rops)))
 	return nil
 }
@@ -396,6 +432,7 @@ func newRouter(rnd *hx.Rand, st *hx.Stats) *rtr {
 		}
 	}
 	withHosts := rnd.Pct(30)
+	r.family = rnd.Pct(18)
 	for _, m := range methods {
 		nr := rnd.Range(1, 6)
 		if rnd.Pct(10) {
@@ -405,6 +442,9 @@ func newRouter(rnd *hx.Rand, st *hx.Stats) *rtr {
 			p := hx.Pick(rnd, patternPool)
 			if withHosts && rnd.Pct(40) {
 				p = hx.Pick(rnd, hostPatterns)
+			}
+			if r.family && rnd.Pct(75) {
+				p = hx.Pick(rnd, hostFamily)
 			}
 			var rops []tsOpt
 			switch rnd.Intn(10) {
@@ -479,6 +519,8 @@ func genWire(rnd *hx.Rand, r *rtr, method string) string {
 		}
 	}
 	switch {
+	case r.family && rnd.Pct(60):
+		return hx.Pick(rnd, familyPaths)
 	case len(same) > 0 && rnd.Pct(45):
 		p = instantiate(rnd, same[rnd.Intn(len(same))].pattern)
 	case len(r.routes) > 0 && rnd.Pct(70):
@@ -547,7 +589,12 @@ func genRequest(rnd *hx.Rand, r *rtr, st *hx.Stats) *reqCase {
 	}
 	host := "other.org"
 	if len(r.hosts) > 0 && rnd.Pct(70) {
-		host = strings.NewReplacer("{sub}", "foo").Replace(hx.Pick(rnd, r.hosts))
+		host = paramNameRe.ReplaceAllStringFunc(hx.Pick(rnd, r.hosts), func(string) string {
+			return hx.Pick(rnd, []string{"foo", "foo", "b", "www", "z"})
+		})
+	}
+	if r.family && rnd.Pct(75) {
+		host = hx.Pick(rnd, familyHosts)
 	}
 	// decorations of the Host: port, trailing dot, and the doubly-decorated forms of which only one
 	// layer may be removed (so they do NOT name the registered hostname)
@@ -789,11 +836,11 @@ func runCase(r *rtr, rc *reqCase, st *hx.Stats, mode int) (term, human string, n
 				}
 				rt = "(Some " + hx.Pair(hx.Bytes(id.method), hx.Bytes(id.pattern)) + ")"
 			}
-			return "(" + rt + ", " + hx.Bytes(v.pattern) + ", " + paramsTerm(v.params) + ", " + scopeName(v.scope) + ")"
+			return "(" + rt + ", " + hx.Bytes(v.pattern) + ", " + paramsTerm(v.params) + ", " + scopeName(v.scope) + ", " + paramsTerm(v.named) + ")"
 		})
-		obsTerm = fmt.Sprintf("(Some (Build_observed %s %s %s %s %s %s %s %s %s %s))", kt, routeT, hx.Bytes(o.pattern),
+		obsTerm = fmt.Sprintf("(Some (Build_observed %s %s %s %s %s %s %s %s %s %s %s))", kt, routeT, hx.Bytes(o.pattern),
 			paramsTerm(o.params), scopeName(o.scope), hx.Z(int64(w.Code)), hx.Opt(hasAllow, hx.Bytes(allowHdr)),
-			hx.ListOf(allowList, hx.Bytes), hx.Opt(hasLoc, hx.Bytes(locS)), viewsTerm)
+			hx.ListOf(allowList, hx.Bytes), hx.Opt(hasLoc, hx.Bytes(locS)), viewsTerm, paramsTerm(o.named))
 		setList := append([]string(nil), allowList...)
 		sort.Strings(setList)
 		obsHuman = fmt.Sprintf("handler=%s %s %s status=%d ctx{route=%s pattern=%q params=%v scope=%s}", o.kind, o.kmethod, o.kpattern,
@@ -804,12 +851,22 @@ func runCase(r *rtr, rc *reqCase, st *hx.Stats, mode int) (term, human string, n
 		if hasLoc {
 			obsHuman += fmt.Sprintf(" Location=%q", locS)
 		}
+		nonEmpty := func(named [][2]string) [][2]string {
+			var out [][2]string
+			for _, nv := range named {
+				if nv[1] != "" {
+					out = append(out, nv)
+				}
+			}
+			return out
+		}
+		obsHuman += fmt.Sprintf(" Param(name)!=\"\":%v", nonEmpty(o.named))
 		for _, v := range o.views {
 			vr := "nil"
 			if !v.routeNil {
 				vr = v.rid.method + " " + v.rid.pattern
 			}
-			obsHuman += fmt.Sprintf(" %s(){route=%s pattern=%q params=%v scope=%s}", v.name, vr, v.pattern, v.params, scopeName(v.scope))
+			obsHuman += fmt.Sprintf(" %s(){route=%s pattern=%q params=%v scope=%s Param(name)!=\"\":%v}", v.name, vr, v.pattern, v.params, scopeName(v.scope), nonEmpty(v.named))
 		}
 	}
 	regs := hx.SortedKeys(r.registered)
@@ -912,6 +969,14 @@ func corpus(st *hx.Stats, add func(r *rtr, rc *reqCase, tag string)) {
 		{true, true, "", []rdef{{"POST", "ex.com/foo", ""}}, "OPTIONS", "/foo", "ex.com.."},
 		{true, true, "", []rdef{{"POST", "ex.com/foo", ""}}, "OPTIONS", "/foo", "[ex.com:80]:80"},
 		{true, true, "", []rdef{{"POST", "ex.com/foo", ""}}, "GET", "/foo", "ex.com.:8080"},
+		// a hostname walk that follows the static label, fails on the path and backtracks to the parameter label,
+		// under a method other than the request's (lazy per-method sweeps)
+		{true, true, "", []rdef{{"POST", "{a}.b.com/x", ""}, {"POST", "{a}.{c}.com/y", ""}}, "GET", "/y", "foo.b.com"},
+		{true, true, "", []rdef{{"POST", "{a}.b.com/x", ""}, {"POST", "{a}.{c}.com/y", ""}}, "DELETE", "/y", "foo.b.com"},
+		{true, true, "", []rdef{{"POST", "{a}.b.com/x", ""}, {"POST", "{a}.{c}.com/y", ""}}, "OPTIONS", "/y", "foo.b.com"},
+		{true, false, "", []rdef{{"POST", "{a}.b.com/x", ""}, {"POST", "{a}.{c}.com/y", ""}, {"GET", "/q", ""}}, "GET", "/y", "foo.b.com"},
+		{true, true, "", []rdef{{"POST", "www.b.com/x", ""}, {"POST", "{a}.b.com/y", ""}, {"PUT", "{a}.b.com/x", ""}, {"PUT", "{a}.{c}.com/z", ""}}, "GET", "/z", "www.b.com"},
+		{true, false, "", []rdef{{"POST", "{a}.b.com/x", ""}, {"POST", "{a}.{c}.com/y", ""}}, "GET", "/q", "foo.b.com"},
 	}
 	named := func(o string) []tsOpt {
 		switch o {
